@@ -2,8 +2,9 @@
 L7 — the in-house bipartite samplers of cnfgen/graphs.py as functions of explicit draws:
 `bipartite_random_left_regular` (glrd), `bipartite_random_m_edges` (glrm),
 `bipartite_random` (glrp), `bipartite_random_regular` (regular).
-Transcribed from the code as it is now (after the fixes of D8 — dense branch of glrm — and of
-D10 — `regular` uses the pair found by its fallback scan).  Import-free.
+Transcribed from the code as it is now (after the fixes of D8 — dense branch of glrm —, of
+D10 — `regular` uses the pair found by its fallback scan — and of C15-F1/F2 — `regular` refuses
+`d > r` and returns the empty graph for `r = 0`).  Import-free.
 -/
 import CnfgenModel.Rand.GraphDraws
 import CnfgenModel.Graph.Basic
@@ -137,8 +138,9 @@ def randomRegular (l r d : Int) : (fuel : Nat) → RM BipG
   | 0 => RM.raise .recursion
   | fuel + 1 =>
     if l < 0 ∨ r < 0 ∨ d < 0 then RM.raise .valueError
-    else if r = 0 then RM.raise .zeroDivision
-    else if (l * d) % r ≠ 0 then RM.raise .valueError
+    else if d > r then RM.raise .valueError
+    else if r > 0 ∧ (l * d) % r ≠ 0 then RM.raise .valueError
+    else if r = 0 then pure (BipG.init l.toNat r.toNat)      -- `if r == 0: return G`
     else do
       let N := (l * d).toNat
       let A := repeatRange l.toNat d.toNat
